@@ -180,4 +180,31 @@ mutual
     | (_, x) :: r => noTable x ∧ noTableKvs r
 end
 
+mutual
+  /-- no object anywhere inside -/
+  def arrOnly : JV → Prop
+    | .arr xs => arrOnlyL xs
+    | .obj _ => False
+    | _ => True
+  def arrOnlyL : List JV → Prop
+    | [] => True
+    | x :: r => arrOnly x ∧ arrOnlyL r
+end
+
+mutual
+  /-- every alignment table of the tree is a table of ARRAYS without objects inside: an array with two
+  or more members has not only objects as members, and if it has only arrays they contain no object
+  at any depth -/
+  def tablesArr : JV → Prop
+    | .arr xs => (2 ≤ xs.length → xs.all isObj = false ∧ (xs.all isArr = true → arrOnlyL xs)) ∧ tablesArrL xs
+    | .obj kvs => tablesArrK kvs
+    | _ => True
+  def tablesArrL : List JV → Prop
+    | [] => True
+    | x :: r => tablesArr x ∧ tablesArrL r
+  def tablesArrK : Kvs → Prop
+    | [] => True
+    | (_, x) :: r => tablesArr x ∧ tablesArrK r
+end
+
 end OjgVerif.Writer
